@@ -211,48 +211,81 @@ def straight_segment(P, rep, rule="SEG.line"):
                F.nloc(step), F.qn)
 
 
+def _mp(v):
+    import mpmath
+    return mpmath.mpf(sp.N(v, 50)) if not isinstance(v, (int, float)) else mpmath.mpf(v)
+
+
+def _at(e, pt):
+    """value of a sympy expression / condition at a point, in 40-digit floating point (no exact symbolic evaluation)"""
+    import mpmath
+    mpmath.mp.dps = 40
+    syms = sorted(e.free_symbols, key=str)
+    if any(x not in pt for x in syms):
+        raise KeyError("free symbol")
+    f = sp.lambdify(syms, e, modules="mpmath")
+    return f(*[_mp(pt[x]) for x in syms])
+
+
 def arc_segment(P, rep, rule="SEG.arc"):
     rep.rule(rule, "a segment whose dip changes linearly from theta_t to theta_b (Delta = theta_t - theta_b, s = sign Delta) over the length L is the "
                    "circular arc of radius r = L/|Delta| about O = B + s*r*(sin theta_t, cos theta_t) (the point at distance r on the normal at B; also "
                    "in the special cases theta_t = 90 and 270 degrees); it ends at O + Rot(Delta)(B - O); for a check point C = O + rho*(-sin a, cos a) "
                    "the dip of the surface on its radial is phi = pi - a (s > 0) or 2 pi - a (s < 0); the point is attributed to the segment iff phi "
-                   "lies between theta_b and theta_t (closed, tolerance <= 1e-8), the distance below the surface is s*(rho - r), the distance along it "
-                   "r*|theta_t - phi|, the reference depth start_radius - (O_y + r cos a); otherwise the three results keep the value they had")
+                   "lies between theta_b and theta_t (closed), the distance below the surface is s*(rho - r), the distance along it r*|theta_t - phi|, "
+                   "the reference depth start_radius - (O_y + r cos a); otherwise the three results keep the value they had.  The branch is "
+                   "evaluated symbolically on 14 paths (3 centre cases x sign of Delta x attributed / not; dips are in (0, 180) degrees, so the 270-degree case has no attributed path; plus, for each sign, a dip 2e-7 rad away from 90 degrees and a dip change of 2e-7 rad over 100 km, where the rounding guards of the special cases must no longer apply); each resulting expression is "
+                   "compared with its closed form by a 40-digit zero test at 6 points of the path's region (the branch conditions recorded on "
+                   "the path are re-checked at every point)")
     su = _setup(P, rep, rule)
     if su is None:
         return
     F, K, step, loop, handed = su
+    import random
     bx, by, th, tb, R, alpha = sp.symbols("bx by theta_t theta_b R alpha", real=True)
     L = sp.Symbol("L", positive=True)
     rho = sp.Symbol("rho", positive=True)
     INIT = {K["new_distance"]: sp.Symbol("nd0"), K["new_along_plane_distance"]: sp.Symbol("na0"), K["new_depth_reference_surface"]: sp.Symbol("nr0")}
-    n_ok = 0
-    n_paths = 0
+    n_ok = n_paths = 0
     for s in (1, -1):
-        for case, tval in (("general", None), ("90 degrees", sp.pi / 2), ("270 degrees", 3 * sp.pi / 2)):
+        for case, tval, force in (("general", None, {}), ("90 degrees", sp.pi / 2, {}), ("270 degrees", 3 * sp.pi / 2, {}),
+                                  # just outside the rounding guards: the general construction must already be in use there
+                                  ("2e-7 rad from 90 degrees", None, {"t": sp.pi / 2 + sp.Rational(2, 10 ** 7)}),
+                                  ("dip change of 2e-7 rad over 100 km", None, {"u": sp.Rational(2, 10 ** 7), "L": sp.Integer(100000)})):
             for accepted in (True, False):
+                if force and not accepted:
+                    continue
+                if accepted and case == "270 degrees":
+                    continue       # dips lie in (0, 180) degrees: only the centre and the end point of this special case are compared
                 n_paths += 1
+                rnd = random.Random(1000 * n_paths + 7)
                 tht = th if tval is None else tval
                 delta = tht - tb
                 r = L / (s * delta)                      # = L/|Delta| on this path
                 O = (bx + s * r * sp.sin(tht), by + s * r * sp.cos(tht))
                 C = (O[0] - rho * sp.sin(alpha), O[1] + rho * sp.cos(alpha))
-                # a sample point of this region decides the branches; the results are compared symbolically
-                t_s = sp.Rational(9, 10) if tval is None else tval
-                tb_s = t_s - s * sp.Rational(1, 5)
-                phi_s = t_s - s * (sp.Rational(1, 10) if accepted else -sp.Rational(1, 2))
-                a_s = (sp.pi - phi_s) if s > 0 else (2 * sp.pi - phi_s)
-                sample = {bx: 0, by: 0, R: 0, L: 1, tb: tb_s, rho: 5 + sp.Rational(3, 10), alpha: a_s, EPS: sp.Rational(1, 10 ** 15)}
-                if tval is None:
-                    sample[th] = t_s
+                phi = (sp.pi - alpha) if s > 0 else (2 * sp.pi - alpha)
+
+                def point():
+                    Q = lambda a, b: sp.Rational(rnd.randint(int(a * 1000), int(b * 1000)), 1000)
+                    t_s = (Q(0.25, 1.25) if rnd.random() < 0.5 else Q(1.9, 2.9)) if tval is None else tval
+                    t_s = force.get("t", t_s)
+                    u = force.get("u", Q(0.1, 0.6))
+                    tb_s = t_s - s * u
+                    frac = Q(0.1, 0.9)
+                    phi_s = (t_s - s * u * frac) if accepted else (t_s + s * Q(0.1, 0.4) if rnd.random() < 0.5 else tb_s - s * Q(0.1, 0.4))
+                    a_s = (sp.pi - phi_s) if s > 0 else (2 * sp.pi - phi_s)
+                    L_s = force.get("L", Q(0.5, 3))
+                    r_s = L_s / u
+                    pt = {bx: Q(-2, 2), by: Q(-2, 2), R: Q(-2, 2), L: L_s, tb: tb_s, rho: r_s * Q(0.6, 1.5), alpha: a_s, EPS: sp.Rational(1, 10 ** 15)}
+                    if tval is None:
+                        pt[th] = t_s
+                    return pt
+                sample = point()
 
                 def choose(cv, node, sample=sample):
                     try:
-                        v = cv.subs(sample)
-                        v = v.subs({sy: 0 for sy in v.free_symbols}) if getattr(v, "free_symbols", None) else v
-                        if v in (sp.true, sp.false):
-                            return v is sp.true or v == sp.true
-                        return bool(v)
+                        return bool(_at(cv, sample))
                     except Exception:
                         return None
                 env = {K["begin_segment"]: (bx, by), K["end_segment"]: (bx, by), K["check_point_2d"]: C, K["interpolated_angle_top"]: tht,
@@ -260,104 +293,101 @@ def arc_segment(P, rep, rule="SEG.arc"):
                        K["difference_in_angle_along_segment"]: delta}
                 env.update(INIT)
                 V = VecEval(P, F, env=env, choose=choose)
+                path = "%s, Delta %s 0, %s" % (case, ">" if s > 0 else "<", "attributed" if accepted else "not attributed")
                 try:
+                    sel = V.ev(step["c"][0])      # the test that selects line or arc is part of the path
+                    if bool(_at(sel, sample)):
+                        rep.violation(rule, "arc segment (%s): the straight-line construction is used" % path, F.nloc(step), F.qn, norm.render(P, step["c"][0])[:120],
+                                      "a dip that changes along the segment is built as a line with the top dip: distances are off by up to L*|Delta|/2",
+                                      key="%s|select" % rule, witness="a 300 km segment whose dip changes from 30 to 30.1 degrees")
+                        continue
+                    V.trace.append((sel, False))
                     V.stmt(step["c"][2])
                 except AnalysisBroken as e:
-                    rep.unknown(rule, "arc branch (%s, Delta %s 0): %s" % (case, ">" if s > 0 else "<", e))
+                    rep.unknown(rule, "arc branch (%s): %s" % (path, e))
                     return
-                path = "%s, Delta %s 0, %s" % (case, ">" if s > 0 else "<", "attributed" if accepted else "not attributed")
+                except Exception as e:
+                    rep.unknown(rule, "arc branch (%s): %s" % (path, e))
+                    return
+                # points of the region of this path: same truth value of every recorded condition
+                pts = [sample]
+                tries = 0
+                while len(pts) < 6 and tries < 200:
+                    tries += 1
+                    pt = point()
+                    try:
+                        same = all(bool(_at(cv, pt)) == t for (cv, t) in V.trace)
+                    except Exception:
+                        same = False
+                    if same:
+                        pts.append(pt)
+                if len(pts) < 4:
+                    rep.unknown(rule, "arc branch (%s): only %d points of the path's region found" % (path, len(pts)))
+                    return
 
-                def bad(what, got, want, key):
+                def same(got, want):
+                    if isinstance(got, tuple):
+                        return all(same(g, w) for g, w in zip(got, want))
+                    for pt in pts:
+                        try:
+                            d_ = _at(got - want, pt)
+                            scale = 1 + abs(_at(want, pt))
+                        except Exception:
+                            return False
+                        if not (abs(d_) < scale * 1e-25):
+                            return False
+                    return True
+                good = True
+
+                def bad(what, got, want, key, path=path):
                     rep.violation(rule, "arc segment (%s): %s is %s" % (path, what, str(got)[:110]), F.nloc(step), F.qn, str(got)[:140], "expected %s" % want,
                                   key="%s|%s" % (rule, key), witness="a slab segment whose dip changes from 20 to 60 degrees, and a point 10 km below its surface")
-                good = True
-                # on this path acos(cos a) is a (0 <= a <= pi, left of the centre) or 2 pi - a
-                a_num = float(a_s)
-                inv = alpha if a_num <= float(sp.pi) else 2 * sp.pi - alpha
-
-                def norm_(e):
-                    e = sp.simplify(sp.expand_trig(sp.expand(e))) if not e.has(sp.acos) else e
-                    if e.has(sp.acos):
-                        def fix(x):
-                            arg = sp.simplify(x.args[0])
-                            if _zero(arg - sp.cos(alpha)):
-                                return inv
-                            return x
-                        e = e.replace(lambda x: isinstance(x, sp.acos), fix)
-                        e = sp.simplify(sp.expand_trig(sp.expand(e)))
-                    return e
-                e = V.env[K["end_segment"]]
                 BO = (bx - O[0], by - O[1])
                 want_e = (sp.cos(delta) * BO[0] - sp.sin(delta) * BO[1] + O[0], sp.sin(delta) * BO[0] + sp.cos(delta) * BO[1] + O[1])
-                if not (_zero(e[0] - want_e[0]) and _zero(e[1] - want_e[1])):
-                    bad("the end point", e, "O + Rot(Delta)(B - O) with O = B + s*r*(sin theta_t, cos theta_t)", "end")
+                if not same(V.env[K["end_segment"]], want_e):
+                    bad("the end point", V.env[K["end_segment"]], "O + Rot(Delta)(B - O) with O = B + s*r*(sin theta_t, cos theta_t)", "end")
                     good = False
-                phi = (sp.pi - alpha) if s > 0 else (2 * sp.pi - alpha)
                 if accepted:
-                    nd = norm_(V.env[K["new_distance"]])
-                    if not _zero(nd - s * (rho - r)):
-                        bad("the distance", nd, "s*(rho - r): positive below the surface", "distance")
+                    if not same(V.env[K["new_distance"]], s * (rho - r)):
+                        bad("the distance", V.env[K["new_distance"]], "s*(rho - r): positive below the surface", "distance")
                         good = False
-                    na = norm_(V.env[K["new_along_plane_distance"]])
-                    if not _zero(na - s * r * (tht - phi)):
-                        bad("the distance along the surface", na, "r*|theta_t - phi|", "along")
+                    if not same(V.env[K["new_along_plane_distance"]], s * r * (tht - phi)):
+                        bad("the distance along the surface", V.env[K["new_along_plane_distance"]], "r*|theta_t - phi|", "along")
                         good = False
-                    nr = norm_(V.env[K["new_depth_reference_surface"]])
-                    if not _zero(nr - (R - (O[1] + r * sp.cos(alpha)))):
-                        bad("the reference depth", nr, "start_radius - (O_y + r cos a)", "depthref")
+                    if not same(V.env[K["new_depth_reference_surface"]], R - (O[1] + r * sp.cos(alpha))):
+                        bad("the reference depth", V.env[K["new_depth_reference_surface"]], "start_radius - (O_y + r cos a)", "depthref")
                         good = False
                 else:
                     for nm in ("new_distance", "new_along_plane_distance", "new_depth_reference_surface"):
                         if V.env[K[nm]] != INIT[K[nm]]:
                             bad("%s of a point outside the segment's angular range" % nm, V.env[K[nm]], "unchanged (+infinity from the start of the step)", "reject-" + nm)
                             good = False
-                # the attribution test: closed interval between theta_b and theta_t in the right order, tolerances tiny
+                # the attribution test at and around the ends of the angular range
                 acc = [cv for (cv, t) in V.trace if isinstance(cv, (sp.Or, sp.And)) and cv.has(tb)]
                 if len(acc) != 1:
                     rep.unknown(rule, "arc branch (%s): the attribution test was not identified" % path)
                     return
-                cvn = acc[0]
-                tol_bad = []
-
-                def atom(x):
-                    # tolerance atoms |phi - theta| < c  ->  false (checked separately); order atoms are kept
-                    if isinstance(x, (sp.Lt, sp.Le)) and x.args[0].has(sp.Abs) and x.args[1].is_number:
-                        if float(x.args[1]) > 1e-8:
-                            tol_bad.append(x.args[1])
-                        return sp.false
-                    return x
-                stripped = cvn.replace(lambda x: isinstance(x, (sp.Lt, sp.Le, sp.Gt, sp.Ge)), atom)
-                phic = norm_(phi)
-                # evaluate the stripped test on the path's sign of Delta, at phi inside / at the ends / outside
-                def holds(phival):
-                    sub = dict(sample)
-                    a_v = (sp.pi - phival) if s > 0 else (2 * sp.pi - phival)
-                    sub[alpha] = a_v
-                    v = stripped.subs(sub)
-                    try:
-                        return bool(v)
-                    except Exception:
-                        return None
-                lo_, hi_ = min(t_s, tb_s), max(t_s, tb_s)
-                # the side on which the radial of a point lies is decided by the branch `x <= O_x`; near the ends stay on this path's side
-                probes = {"inside": ((lo_ + hi_) / 2, True), "at theta_t": (t_s, True), "at theta_b": (tb_s, True),
-                          "beyond theta_t": (t_s + s * sp.Rational(1, 20), False), "beyond theta_b": (tb_s - s * sp.Rational(1, 20), False)}
                 if accepted:
+                    cvn = acc[0]
+                    base = dict(sample)
+                    t_s = base[th] if tval is None else tval
+                    tb_s = base[tb]
+                    probes = {"inside": ((t_s + tb_s) / 2, True), "at theta_t": (t_s, True), "at theta_b": (tb_s, True),
+                              "beyond theta_t": (t_s + s * sp.Rational(1, 50), False), "beyond theta_b": (tb_s - s * sp.Rational(1, 50), False)}
                     for nm, (pv, want) in probes.items():
-                        # evaluate the recorded condition value: it contains acos(...) of the sample geometry
-                        got = holds(pv)
-                        if got is None:
+                        pt = dict(base)
+                        pt[alpha] = (sp.pi - pv) if s > 0 else (2 * sp.pi - pv)
+                        try:
+                            got = bool(_at(cvn, pt))
+                        except Exception:
                             continue
                         if got != want:
-                            bad("the attribution test at phi %s" % nm, cvn, "theta_b <= phi <= theta_t (closed, in the order given by the sign of Delta)", "accept")
+                            bad("the attribution test for a point whose radial has the dip %s" % nm, cvn, "theta_b <= phi <= theta_t (closed, in the order given by the sign of Delta)", "accept")
                             good = False
                             break
-                    if tol_bad:
-                        bad("a tolerance of the attribution test", tol_bad[0], "at most 1e-8 rad", "tolerance")
-                        good = False
                 if good:
                     n_ok += 1
     if n_ok == n_paths:
         rep.ok(rule, "arc segment: centre, end point, attribution range, signed distance, along distance and reference depth equal the circular construction on %d paths "
-                     "(3 centre cases x sign of the dip change x attributed / not)" % n_paths, F.nloc(step), F.qn)
-    rep.floor(rule, n_paths, 12, "paths of the arc step")
+                     "(centre cases x sign of the dip change x attributed / not, and just outside the rounding guards)" % n_paths, F.nloc(step), F.qn)
+    rep.floor(rule, n_paths, 14, "paths of the arc step")
